@@ -152,6 +152,12 @@ func (n *LocalNode) RequestToJoin(joiner chord.VNode) (chord.VNode, []chord.VNod
 
 	prevPredecessor = n.predecessor
 
+	// our own range is only settled once the predecessor pointer names a live node: after the previous
+	// predecessor failed or left, stabilization has to catch up first. Let the joiner retry.
+	if prevPredecessor == nil || (prevPredecessor.ID() != n.ID() && prevPredecessor.Ping() != nil) {
+		return nil, nil, chord.ErrJoinInvalidState
+	}
+
 	// see issue https://github.com/zllovesuki/specter/issues/23
 	if !chord.Between(prevPredecessor.ID(), joiner.ID(), n.ID(), false) {
 		return nil, nil, chord.ErrJoinInvalidSuccessor
